@@ -36,15 +36,24 @@ static size_t unhex(const char *s, uint8_t *out)
 }
 static void puthex(const uint8_t *p, size_t n) { if (n == 0) printf("-"); for (size_t i = 0; i < n; ++i) printf("%02x", p[i]); }
 
+// at most 2 reports per input line and kind of failure (every slicing of a wrong transform fails the same way)
+static int quiet(const char *what)
+{
+	static unsigned long last_line; static char last_what[64]; static int count;
+	++mismatches;
+	if (last_line != lineno || strcmp(last_what, what) != 0) { last_line = lineno; snprintf(last_what, sizeof(last_what), "%s", what); count = 0; }
+	return ++count > 2 || mismatches > 200000;
+}
+
 static void mismatch(const char *what, const char *slicing, const uint8_t *got, size_t ngot, const uint8_t *want, size_t nwant)
 {
-	if (++mismatches > 300) return;
+	if (quiet(what)) return;
 	printf("MISMATCH line=%lu what=%s slicing=%s got=", lineno, what, slicing);
 	puthex(got, ngot); printf(" want="); puthex(want, nwant); printf("\n");
 }
 static void mismatch_num(const char *what, const char *slicing, long got, long want)
 {
-	if (++mismatches > 300) return;
+	if (quiet(what)) return;
 	printf("MISMATCH line=%lu what=%s slicing=%s got=%ld want=%ld\n", lineno, what, slicing, got, want);
 }
 
